@@ -74,6 +74,80 @@ func (t *T) Add(n int) int { t.N += n; t.l.Add("Add" + strconv.Itoa(n)); return 
 // Boom panics.
 func (t *T) Boom() { panic("method boom") }
 
+// StopM calls Env.Stop from a method.
+func (t *T) StopM(env native.Env, i int) { stopWith(t.l, env, i) }
+
+// FatalM calls Env.Fatal from a method.
+func (t *T) FatalM(env native.Env, i int) { fatalWith(t.l, env, i) }
+
+func stopWith(l *Log, env native.Env, i int) {
+	l.Add("STOP" + strconv.Itoa(i))
+	l.StopIdx = i
+	env.Stop(StopErrs[i%len(StopErrs)])
+}
+
+func fatalWith(l *Log, env native.Env, i int) {
+	l.Add("FATAL" + strconv.Itoa(i))
+	l.FatalIdx = i
+	env.Fatal(FatalVals[i%len(FatalVals)])
+}
+
+// envVal is the common part of the values whose Env-stringer method acts when the
+// value is shown: Action is "tick", "stop" or "fatal".
+type envVal struct {
+	Action string
+	Idx    int
+	l      *Log
+}
+
+func (v envVal) act(env native.Env) string {
+	switch v.Action {
+	case "stop":
+		stopWith(v.l, env, v.Idx)
+	case "fatal":
+		fatalWith(v.l, env, v.Idx)
+	default:
+		v.l.Add("EV" + strconv.Itoa(v.Idx))
+	}
+	return "ev" + strconv.Itoa(v.Idx)
+}
+
+// One type per Env-stringer interface, so that a show can only go through that one.
+type (
+	EnvStr  struct{ envVal }
+	EnvHTML struct{ envVal }
+	EnvCSS  struct{ envVal }
+	EnvJS   struct{ envVal }
+	EnvJSON struct{ envVal }
+	EnvMD   struct{ envVal }
+)
+
+func (v EnvStr) String(env native.Env) string           { return v.act(env) }
+func (v EnvHTML) HTML(env native.Env) native.HTML       { return native.HTML(v.act(env)) }
+func (v EnvCSS) CSS(env native.Env) native.CSS          { return native.CSS(v.act(env)) }
+func (v EnvJS) JS(env native.Env) native.JS             { return native.JS("\"" + v.act(env) + "\"") }
+func (v EnvJSON) JSON(env native.Env) native.JSON       { return native.JSON("\"" + v.act(env) + "\"") }
+func (v EnvMD) Markdown(env native.Env) native.Markdown { return native.Markdown(v.act(env)) }
+
+// EnvValue returns a value of the Env-stringer kind "str", "html", "css", "js", "json"
+// or "md".
+func EnvValue(l *Log, kind, action string, idx int) any {
+	ev := envVal{Action: action, Idx: idx, l: l}
+	switch kind {
+	case "html":
+		return EnvHTML{ev}
+	case "css":
+		return EnvCSS{ev}
+	case "js":
+		return EnvJS{ev}
+	case "json":
+		return EnvJSON{ev}
+	case "md":
+		return EnvMD{ev}
+	}
+	return EnvStr{ev}
+}
+
 // Str is a native Stringer.
 type Str string
 
@@ -129,16 +203,11 @@ func Declarations(l *Log, nilIntPtr **int, nilMap *map[string]int, ints *[]int) 
 				f()
 			}
 		},
-		"Stop": func(env native.Env, i int) {
-			l.Add("STOP" + strconv.Itoa(i))
-			l.StopIdx = i
-			env.Stop(StopErrs[i%len(StopErrs)])
-		},
-		"Fatal": func(env native.Env, i int) {
-			l.Add("FATAL" + strconv.Itoa(i))
-			l.FatalIdx = i
-			env.Fatal(FatalVals[i%len(FatalVals)])
-		},
+		"Stop":      func(env native.Env, i int) { stopWith(l, env, i) },
+		"Fatal":     func(env native.Env, i int) { fatalWith(l, env, i) },
+		"StopVar":   func(env native.Env, i int, xs ...any) { stopWith(l, env, i) },
+		"FatalVar":  func(env native.Env, i int, xs ...any) { fatalWith(l, env, i) },
+		"EV":        func(kind, action string, idx int) any { return EnvValue(l, kind, action, idx) },
 		"PanicStr":  func() { panic("native boom") },
 		"PanicErr":  func() { panic(errors.New("native error")) },
 		"PanicEnv":  func(env native.Env, n int) { panic("native env " + strconv.Itoa(n)) },
@@ -220,6 +289,10 @@ func Sink(v any) {
 }
 func Stop(i int)  { add("STOP" + strconv.Itoa(i)); os.Exit(0) }
 func Fatal(i int) { add("FATAL" + strconv.Itoa(i)); os.Exit(0) }
+func StopVar(i int, xs ...any)  { Stop(i) }
+func FatalVar(i int, xs ...any) { Fatal(i) }
+func (t *T) StopM(i int)        { Stop(i) }
+func (t *T) FatalM(i int)       { Fatal(i) }
 func PanicStr()   { panic("native boom") }
 func PanicErr()   { panic(errors.New("native error")) }
 func PanicEnv(n int)      { panic("native env " + strconv.Itoa(n)) }
